@@ -6,6 +6,7 @@ import (
 	"fmt"
 	"go/types"
 	"math/big"
+	"regexp"
 	"strings"
 )
 
@@ -244,7 +245,7 @@ func (env *Env) eval(e *Expr) Term {
 	case "str":
 		return mk(u.strLit(e.Str), SStr).withType(types.Typ[types.String])
 	case "bool":
-		return boolLit(e.Name == "true")
+		return boolLit(e.Name == "true").withType(types.Typ[types.Bool])
 	case "ident":
 		if env.inPre && env.preVars != nil {
 			if t, ok := env.preVars[e.Name]; ok {
@@ -622,12 +623,22 @@ func isUntyped(t types.Type) bool {
 	return ok && b.Info()&types.IsUntyped != 0
 }
 
-// Go's truncated division / remainder on mathematical integers
+// Go's truncated division / remainder on mathematical integers.  A literal divisor gives the exact
+// (linear) definition; otherwise the operation is an uninterpreted function shared by code and
+// spec (nonlinear division is outside what the solvers decide reliably).
+var litRe = regexp.MustCompile(`^[0-9]+$`)
+
 func tdiv(x, y string) string {
+	if !litRe.MatchString(y) {
+		return app("godiv", x, y)
+	}
 	return fmt.Sprintf("(ite (>= %s 0) (ite (> %s 0) (div %s %s) (- (div %s (- %s)))) (ite (> %s 0) (- (div (- %s) %s)) (div (- %s) (- %s))))", x, y, x, y, x, y, y, x, y, x, y)
 }
 
 func trem(x, y string) string {
+	if !litRe.MatchString(y) {
+		return app("gorem", x, y)
+	}
 	return fmt.Sprintf("(- %s (* %s %s))", x, y, tdiv(x, y))
 }
 
